@@ -151,6 +151,50 @@ def c13_argv(t1: int, t2: int, t3: int, am: int, at: int, var: int) -> bool:
         return rt.verdict(ok)
 
 
+def c13_setenv(ei: int, pl: int, how: int) -> bool:
+    """
+    The command line follows the CURRENT environment: after `set env` (which reloads the watcher) and after a later
+    respawn / incr, new workers get the new value wherever the reference sits (cmd or args).
+
+    pre: 0 <= ei <= 2 and 0 <= pl <= 1 and 0 <= how <= 2
+    post: _
+    """
+    ei = rt.pick(ei, 3)
+    pl = rt.pick(pl, 2)
+    how = rt.pick(how, 3)
+    values = ('blue', 'two words', '')
+    with World() as w:
+        k = w.kernel
+        k.behaviour = lambda i, argv: Beh(obey=0.0)
+        if pl == 0:
+            wa = w.mk_watcher('a', cmd='prog --color $(circus.env.color)', numprocesses=1, env={'color': 'red'}, graceful_timeout=0.2)
+        else:
+            wa = w.mk_watcher('a', cmd='prog', args='--color $(circus.env.color)', numprocesses=1, env={'color': 'red'},
+                              graceful_timeout=0.2)
+        w.boot([wa], check_delay=-1)
+        r = w.call('set', name='a', options={'env': {'color': values[ei]}}, waiting=True, max_time=10.0)
+        w.quiesce()
+        if how == 1:
+            w.call('incr', name='a', nb=1, waiting=True, max_time=10.0)
+        elif how == 2:
+            k.external_kill(k.alive_pids('a')[0])
+            w.check_now()
+            w.run_for(0.2)
+        w.quiesce()
+        ok = True
+        if r.status != 'ok':
+            return rt.skip()
+        want = ['prog', '--color'] + shlex.split(values[ei])
+        for pid in k.alive_pids('a'):
+            kp = k.procs[pid]
+            if list(kp.argv) != want or dict(kp.env) != {'color': values[ei]}:
+                rt.note('after set env color=%r: worker %d runs %r with env %r', values[ei], pid, kp.argv, kp.env)
+                ok = False
+        if not k.alive_pids('a'):
+            ok = False
+        return rt.verdict(ok)
+
+
 def c13_wid(e1: int, p1: int, g1: int, e2: int, p2: int, d: int, v: int) -> bool:
     """
     Worker ids over histories: positive, unique among the live workers, the first worker has id 1.
@@ -304,6 +348,8 @@ def plan(tier):
                      'variant': 'S: shell / copy_env / second env value set (blanks, quotes, upper-case key) / second worker -- each alone and all together'}),
         Cond('c13_wid', shards=wid_sh, budget=240 if q else 1500, twins=2,
              bounds={'e1,e2': 'S: 15-event menu (C01 menu + stop/start/kill/signal)', 'p': 'R[-1,2]', 'd': 'R[0,dmax]', 'beh': 'S{obey, ignore, alternating}'}),
+        Cond('c13_setenv', budget=120, twins=1,
+             bounds={'value': 'S{blue, two words, empty}', 'place': 'S{cmd, args}', 'then': 'S{nothing, incr, death + respawn}'}),
         Cond('c13_nextwid', shards=[{'m': m, 'np': n} for m in range(5) for n in range(5)], budget=240 if q else 900, twins=1,
              bounds={'used ids': 'R: up to 4 distinct ids in [1,8]', 'numprocesses': 'R[0,4]'}),
     ]
